@@ -24,6 +24,7 @@ CONSTANTS CNodes,     \* cluster node ids (= origin ids, a subset of Nodes)
           MaxOps, MaxDup,
           MaxExch,    \* bound on the number of repair exchanges started
           WithBatch, WithBulk, WithRestart, WithPurge,
+          WithTracker,  \* TRUE: the poller skips a peer whose keyspace change stamp equals the one of its last successful sync
           MaxSkew,
           EmitTrace, MinOpsToEmit
 
@@ -34,10 +35,12 @@ VARIABLES node,    \* n -> [st, store]
           queue,   \* n -> sequence of mutations waiting for the next batch
           rep,     \* <<n, p>> -> state of n's repair exchange against p
           done,    \* <<n, p>> -> an exchange that started after the last operation has completed
+          chg,     \* n -> the keyspace's change counter (inc_change_timestamp; tracked only WithTracker)
+          trk,     \* <<n, p>> -> p's change counter at n's last successful sync against p (KeyspaceTracker), 0 = none
           seen,    \* n -> the <<k, ts>> items that were presented to n's keyspace actor (tracked only WithPurge)
           dups, exch, now, hist
-vars == <<node, clk, ops, net, queue, rep, done, seen, dups, exch, now, hist>>
-MCView == [node |-> node, clk |-> clk, ops |-> ops, net |-> net, queue |-> queue, rep |-> rep, done |-> done, seen |-> seen, dups |-> dups, exch |-> exch, now |-> now]
+vars == <<node, clk, ops, net, queue, rep, done, chg, trk, seen, dups, exch, now, hist>>
+MCView == [node |-> node, clk |-> clk, ops |-> ops, net |-> net, queue |-> queue, rep |-> rep, done |-> done, chg |-> chg, trk |-> trk, seen |-> seen, dups |-> dups, exch |-> exch, now |-> now]
 
 Pairs == { p \in CNodes \X CNodes : p[1] # p[2] }
 Idle == [phase |-> "idle"]
@@ -50,12 +53,16 @@ Init ==
   /\ queue = [n \in CNodes |-> <<>>]
   /\ rep = [p \in Pairs |-> Idle]
   /\ done = [p \in Pairs |-> FALSE]
+  /\ chg = [n \in CNodes |-> 1]
+  /\ trk = [p \in Pairs |-> 0]
   /\ seen = [n \in CNodes |-> {}]
   /\ dups = 0
   /\ exch = 0
   /\ now = 0
   /\ hist = <<>>
 
+\* inc_change_timestamp: single requests bump the counter only when they were applied, bulk requests always
+Bump(n, before, after, bulk) == chg' = IF WithTracker /\ (bulk \/ before # after) THEN [chg EXCEPT ![n] = @ + 1] ELSE chg
 Log(e) == hist' = IF EmitTrace THEN Append(hist, e) ELSE hist
 SetOfSeq(q) == { q[i] : i \in 1..Len(q) }
 See(n, its) == seen' = IF WithPurge THEN [seen EXCEPT ![n] = @ \cup its] ELSE seen
@@ -86,7 +93,8 @@ Issue(n, isDel, keys, t) ==
      /\ done' = [p \in Pairs |-> FALSE]
      /\ rep' = [p \in Pairs |-> IF rep[p].phase = "idle" THEN rep[p] ELSE [rep[p] EXCEPT !.fresh = FALSE]]
      /\ See(n, SetOfSeq(items))
-     /\ UNCHANGED <<dups, exch, now>>
+     /\ Bump(n, node[n], local, bulk)
+     /\ UNCHANGED <<trk, dups, exch, now>>
      /\ Log([a |-> "issue", n |-> n, del |-> isDel, keys |-> keys, t |-> t])
 
 \* the distributor's tick: everything queued goes out as one batch to every other node
@@ -98,7 +106,7 @@ BatchTick(n) ==
   IN /\ WithBatch /\ queue[n] # <<>>
      /\ net' = net \cup { msg(to) : to \in CNodes \ {n} }
      /\ queue' = [queue EXCEPT ![n] = <<>>]
-     /\ UNCHANGED <<node, clk, ops, rep, done, seen, dups, exch, now>>
+     /\ UNCHANGED <<node, clk, ops, rep, done, chg, trk, seen, dups, exch, now>>
      /\ Log([a |-> "tick", n |-> n])
 
 ----------------------------------------------------------------------------
@@ -121,13 +129,14 @@ Deliver(m, keep) ==
   /\ net' = (IF keep THEN net ELSE net \ {m}) \cup After(m)
   /\ dups' = IF keep THEN dups + 1 ELSE dups
   /\ See(m.to, IF m.kind = "batch" THEN SetOfSeq(m.removed) ELSE IF m.kind = "batch2" THEN SetOfSeq(m.modified) ELSE SetOfSeq(m.items))
-  /\ UNCHANGED <<ops, queue, rep, done, exch, now>>
+  /\ Bump(m.to, node[m.to], ApplyMsg(node[m.to], m), m.kind # "single")
+  /\ UNCHANGED <<ops, queue, rep, done, trk, exch, now>>
   /\ Log([a |-> "deliver", m |-> m, keep |-> keep])
 
 Lose(m) ==
   /\ m \in net /\ m.kind # "batch2"
   /\ net' = net \ {m}
-  /\ UNCHANGED <<node, clk, ops, queue, rep, done, seen, dups, exch, now>>
+  /\ UNCHANGED <<node, clk, ops, queue, rep, done, chg, trk, seen, dups, exch, now>>
   /\ Log([a |-> "lose", m |-> m])
 
 ----------------------------------------------------------------------------
@@ -138,19 +147,20 @@ SyncClocks(n, p) == LET m == IF clk[n] > clk[p] THEN clk[n] ELSE clk[p] IN [clk 
 GetState(n, p) ==
   /\ rep[<<n, p>>].phase = "idle"
   /\ exch < MaxExch
+  /\ WithTracker => trk[<<n, p>>] # chg[p]       \* the poll says p's keyspace changed since the last sync
   /\ exch' = exch + 1
-  /\ rep' = [rep EXCEPT ![<<n, p>>] = [phase |-> "got", snap |-> node[p].st, fresh |-> TRUE]]
+  /\ rep' = [rep EXCEPT ![<<n, p>>] = [phase |-> "got", snap |-> node[p].st, fresh |-> TRUE, lu |-> chg[p]]]
   /\ clk' = SyncClocks(n, p)                   \* request and reply carry the clocks' stamps (register_ts on both sides)
-  /\ UNCHANGED <<node, ops, net, queue, done, seen, dups, now>>
+  /\ UNCHANGED <<node, ops, net, queue, done, chg, trk, seen, dups, now>>
   /\ Log([a |-> "getstate", n |-> n, p |-> p])
 
 DiffStep(n, p) ==
   LET r == rep[<<n, p>>]
       d == Diff(node[n].st, r.snap)
   IN /\ r.phase = "got"
-     /\ rep' = [rep EXCEPT ![<<n, p>>] = [phase |-> "diffed", fresh |-> r.fresh, mods |-> d[1], rem |-> d[2],
+     /\ rep' = [rep EXCEPT ![<<n, p>>] = [phase |-> "diffed", fresh |-> r.fresh, lu |-> r.lu, mods |-> d[1], rem |-> d[2],
                                           remDone |-> (d[2] = {}), fetched |-> "no", docs |-> {}, modDone |-> FALSE]]
-     /\ UNCHANGED <<node, clk, ops, net, queue, done, seen, dups, exch, now>>
+     /\ UNCHANGED <<node, clk, ops, net, queue, done, chg, trk, seen, dups, exch, now>>
      /\ Log([a |-> "diff", n |-> n, p |-> p])
 
 SeqOf(S) == LET RECURSIVE Q(_) Q(T) == IF T = {} THEN <<>> ELSE LET e == CHOOSE x \in T : \A y \in T : x[1] <= y[1] IN <<e>> \o Q(T \ {e}) IN Q(S)
@@ -161,7 +171,8 @@ RemovalHalf(n, p) ==
      /\ node' = [node EXCEPT ![n] = ActBulk(@, TRUE, 1, SeqOf(r.rem))]
      /\ rep' = [rep EXCEPT ![<<n, p>>].remDone = TRUE]
      /\ See(n, r.rem)
-     /\ UNCHANGED <<clk, ops, net, queue, done, dups, exch, now>>
+     /\ Bump(n, node[n], ActBulk(node[n], TRUE, 1, SeqOf(r.rem)), Cardinality(r.rem) > 1)
+     /\ UNCHANGED <<clk, ops, net, queue, done, trk, dups, exch, now>>
      /\ Log([a |-> "removals", n |-> n, p |-> p])
 
 \* the peer answers with the documents it holds NOW for the listed ids (live ones only)
@@ -172,7 +183,7 @@ Fetch(n, p) ==
      /\ rep' = [rep EXCEPT ![<<n, p>>].fetched = "yes",
                            ![<<n, p>>].docs = { <<k, node[p].store[k].ts>> : k \in { j \in ids : node[p].store[j] # NoneE /\ ~node[p].store[j].tomb } }]
      /\ clk' = SyncClocks(n, p)
-     /\ UNCHANGED <<node, ops, net, queue, done, seen, dups, exch, now>>
+     /\ UNCHANGED <<node, ops, net, queue, done, chg, trk, seen, dups, exch, now>>
      /\ Log([a |-> "fetch", n |-> n, p |-> p])
 
 ApplyModified(n, p) ==
@@ -181,7 +192,8 @@ ApplyModified(n, p) ==
      /\ node' = [node EXCEPT ![n] = IF r.docs = {} THEN @ ELSE ActBulk(@, FALSE, 1, SeqOf(r.docs))]
      /\ rep' = [rep EXCEPT ![<<n, p>>].modDone = TRUE]
      /\ See(n, r.docs)
-     /\ UNCHANGED <<clk, ops, net, queue, done, dups, exch, now>>
+     /\ chg' = IF WithTracker /\ r.mods # {} THEN [chg EXCEPT ![n] = @ + 1] ELSE chg
+     /\ UNCHANGED <<clk, ops, net, queue, done, trk, dups, exch, now>>
      /\ Log([a |-> "modified", n |-> n, p |-> p])
 
 Finish(n, p) ==
@@ -189,7 +201,8 @@ Finish(n, p) ==
   IN /\ r.phase = "diffed" /\ r.remDone /\ r.modDone
      /\ rep' = [rep EXCEPT ![<<n, p>>] = Idle]
      /\ done' = [done EXCEPT ![<<n, p>>] = (@ \/ r.fresh)]
-     /\ UNCHANGED <<node, clk, ops, net, queue, seen, dups, exch, now>>
+     /\ trk' = IF WithTracker THEN [trk EXCEPT ![<<n, p>>] = r.lu] ELSE trk
+     /\ UNCHANGED <<node, clk, ops, net, queue, chg, seen, dups, exch, now>>
      /\ Log([a |-> "finish", n |-> n, p |-> p])
 
 ----------------------------------------------------------------------------
@@ -201,13 +214,15 @@ Restart(n) ==
   /\ node' = [node EXCEPT ![n] = ActRebuild(@)]
   /\ rep' = [p \in Pairs |-> IF p[1] = n THEN Idle ELSE rep[p]]
   /\ queue' = [queue EXCEPT ![n] = <<>>]
+  /\ trk' = [p \in Pairs |-> IF p[1] = n THEN 0 ELSE trk[p]]            \* the tracker lives in memory
+  /\ chg' = IF WithTracker THEN [chg EXCEPT ![n] = @ + 1] ELSE chg       \* a fresh change stamp is drawn at load
   /\ UNCHANGED <<clk, ops, net, done, seen, dups, exch, now>>
   /\ Log([a |-> "restart", n |-> n])
 
 PurgeAt(n) ==
   /\ WithPurge
   /\ node' = [node EXCEPT ![n] = ActPurge(@)]
-  /\ UNCHANGED <<clk, ops, net, queue, rep, done, seen, dups, exch, now>>
+  /\ UNCHANGED <<clk, ops, net, queue, rep, done, chg, trk, seen, dups, exch, now>>
   /\ Log([a |-> "purge", n |-> n])
 
 \* C08's premise: every operation reaches every replica within less than the forgiveness period of its
@@ -220,7 +235,7 @@ TickTime ==
   /\ now + 1 \in Times
   /\ TimelyToAdvance(now + 1)
   /\ now' = now + 1
-  /\ UNCHANGED <<node, clk, ops, net, queue, rep, done, seen, dups, exch>>
+  /\ UNCHANGED <<node, clk, ops, net, queue, rep, done, chg, trk, seen, dups, exch>>
   /\ Log([a |-> "time", t |-> now + 1])
 
 ----------------------------------------------------------------------------
@@ -249,6 +264,13 @@ Converged == Quiet /\ AllExchanged
 \* C01 (and the global clause of C08 when Purge/TickTime are enabled): all nodes return the
 \* last-writer-wins documents of everything that was issued
 C01_Converges == Converged => \A n \in CNodes : Reads(node[n]) = LWWLive(ops)
+\* the poller's fixpoint: nothing in flight and every tracker entry equals the peer's change stamp, so no exchange
+\* would be started any more - then the cluster must have converged (the keyspace tracker never skips a needed sync)
+TrackerIdle == /\ net = {} /\ \A n \in CNodes : queue[n] = <<>>
+               /\ \A p \in Pairs : rep[p].phase = "idle" /\ trk[p] = chg[p[2]]
+C01_TrackerFixpoint == (WithTracker /\ TrackerIdle) => \A n \in CNodes : Reads(node[n]) = LWWLive(ops)
+\* C05 at cluster level: once every pair has exchanged, no node has anything left to fetch from any other
+C05_NothingLeft == Converged => \A p \in Pairs : Diff(node[p[1]].st, node[p[2]].st) = <<{}, {}>>
 \* C02 at cluster level: after every completed actor request set and storage agree on every node
 C02_Agree == \A n \in CNodes : ActAgree(node[n])
 \* used to show that the antecedent of C01 is reachable (expected to be violated)
